@@ -13,8 +13,10 @@ def make_cases(tier, profile):
     for l in ['PART #x', 'PART #x :bye for now', 'PART #x,&y', 'PART #nochan', 'PART &y,#x :x']:
         cases.append(dict(name=l, line=l, judges=['no_panic', 'inv', 'part'], spec=base, split=sp))
     # every other membership mutator preserves the relation (their own oracles: C07 JOIN, C09 KICK, C15 NICK, C06 endings)
-    for l in ['JOIN #x', 'JOIN #new', 'JOIN #x,&y', 'KICK #x bob', 'KICK #x bob,carol', 'KICK #x alice', 'NICK zed', 'NICK bob']:
-        cases.append(dict(name=l + ' (Inv)', line=l, judges=['no_panic', 'inv'], spec=dict(base, sym_invites=True), split=sp))
+    for l in ['JOIN #x', 'JOIN #new', 'JOIN #x,&y', 'KICK #x bob', 'KICK #x bob,carol', 'KICK #x alice', 'KICK #x bob,alice', 'KICK #x carol,bob,alice', 'NICK zed', 'NICK bob']:
+        own = {'JOIN': 'join', 'KICK': 'kick', 'NICK': 'nick'}[l.split()[0]]
+        rk = dict(sym_ranks=True) if own == 'kick' else {}
+        cases.append(dict(name=l + ' (Inv + announcements)', line=l, judges=['no_panic', 'inv', own], spec=dict(base, sym_invites=True, **rk), split=sp))
     cases.append(dict(name='QUIT + teardown (Inv)', line='QUIT', then=['remove_user'], judges=['no_panic', 'inv'], spec=base, split=sp))
     # the three reader views agree with the relation
     vspec = dict(base, sym_modes=True, sym_caps=True)
